@@ -474,3 +474,102 @@ def recovery_script(r, idx, fate_vec=None):
     steps.append({"do": "run_until", "what": "apps", "max_us": 60000000})
     steps.append({"do": "run", "us": 2000000})
     return {"cfg": cfg, "steps": steps, "tag": {"family": "recovery-clean" if clean else "recovery", "idx": idx}}
+
+
+# ------------------------------------------------------------------------------------------------
+# C11
+
+def sm_op(sym, r):
+    side = 1 if sym[0] == "c" else 0
+    k = sym[1]
+    sid = int(sym[2:])
+    if k == "w":
+        op = {"op": "write", "id": sid, "len": r.choice([1, 10, 2000]), "key": 5, "off": 0}
+    elif k == "f":
+        op = {"op": "finish", "id": sid}
+    elif k == "r":
+        op = {"op": "reset", "id": sid, "code": r.choice([3, 9])}
+    elif k == "s":
+        op = {"op": "stop", "id": sid, "code": r.choice([4, 8])}
+    elif k == "d":
+        op = {"op": "read", "id": sid, "ordered": True, "max_len": r.choice([5, 100000])}
+    else:
+        op = {"op": "stopped", "id": sid}
+    return {"do": "op", "n": side, "c": 0, "op": op}
+
+
+def streamsm_from_seq(seq, r, idx):
+    cfg = base_cfg(r)
+    cfg["server"] = {"idle_ms": 20000, "max_bidi": r.choice([1, 2, 100]), "max_uni": r.choice([1, 100])}
+    cfg["client"] = {"idle_ms": 20000, "max_bidi": r.choice([1, 2, 100]), "max_uni": r.choice([1, 100])}
+    steps = [{"do": "connect", "n": 1}, {"do": "run_until", "what": "connected", "max_us": 5000000},
+             {"do": "op", "n": 1, "c": 0, "op": {"op": "open", "dir": 0}},
+             {"do": "op", "n": 1, "c": 0, "op": {"op": "write", "id": 0, "len": 10, "key": 5, "off": 0}},
+             {"do": "run", "us": 40000},
+             {"do": "op", "n": 0, "c": 0, "op": {"op": "accept", "dir": 0}}]
+    for sym in seq:
+        if sym == "n":
+            steps.append({"do": "run", "us": r.choice([15000, 40000])})
+        elif sym == "x":
+            steps.append({"do": "drop_inflight", "k": r.randrange(4)})
+        else:
+            steps.append(sm_op(sym, r))
+    steps.append({"do": "run", "us": 400000})
+    # closing round: every operation once more on both sides
+    for sym in ["cq0", "sq0", "cd0", "sd0", "cw0", "sw0", "cf0", "sf0", "cs0", "ss0", "cr0", "sr0", "cd0", "sd0"]:
+        if r.random() < 0.7:
+            steps.append(sm_op(sym, r))
+    steps.append({"do": "run", "us": 400000})
+    steps.append({"do": "op", "n": 1, "c": 0, "op": {"op": "open", "dir": 0}})
+    steps.append({"do": "op", "n": 0, "c": 0, "op": {"op": "counts"}})
+    steps.append({"do": "op", "n": 1, "c": 0, "op": {"op": "counts"}})
+    return {"cfg": cfg, "steps": steps, "tag": {"family": "streamsm-seq", "seq": seq, "idx": idx}}
+
+
+def streamsm_random(r, idx):
+    """Several streams of every kind, operations in random order, faults."""
+    cfg = base_cfg(r)
+    cfg["server"] = {"idle_ms": 20000, "max_bidi": r.choice([1, 2, 3, 100]), "max_uni": r.choice([1, 2, 100])}
+    cfg["client"] = {"idle_ms": 20000, "max_bidi": r.choice([1, 2, 3, 100]), "max_uni": r.choice([1, 2, 100])}
+    cfg["fates_c2s"] = ["ok"] * 4 + fates(r, 16)
+    cfg["fates_s2c"] = ["ok"] * 4 + fates(r, 16)
+    steps = [{"do": "connect", "n": 1}, {"do": "run_until", "what": "connected", "max_us": 8000000}]
+    ids = {1: [], 0: []}
+    pool = []
+    for _ in range(r.choice([8, 15, 30])):
+        k = r.random()
+        side = r.choice([0, 1])
+        if k < 0.15 or not pool:
+            d = r.choice([0, 1])
+            steps.append({"do": "op", "n": side, "c": 0, "op": {"op": "open", "dir": d}})
+            # predicted id (checked by the spec anyway): type bits
+            ty = (0 if side == 1 else 1) + 2 * d
+            nxt = len([x for x in ids[side] if x % 4 == ty])
+            sid = 4 * nxt + ty
+            ids[side].append(sid)
+            pool.append(sid)
+            steps.append({"do": "op", "n": side, "c": 0, "op": {"op": "write", "id": sid, "len": 5, "key": 1, "off": 0}})
+        elif k < 0.25:
+            steps.append({"do": "op", "n": side, "c": 0, "op": {"op": "accept", "dir": r.choice([0, 1])}})
+        elif k < 0.45:
+            steps.append({"do": "run", "us": r.choice([5000, 25000, 60000])})
+        else:
+            sid = r.choice(pool)
+            uni = (sid // 2) % 2 == 1
+            init_side = 1 if sid % 2 == 0 else 0
+            kind = r.choice(["w", "f", "r", "q"] if (not uni or side == init_side) else ["d", "s"])
+            if not uni and r.random() < 0.5:
+                kind = r.choice(["d", "s"])
+            sym = ("c" if side == 1 else "s") + kind + str(sid)
+            steps.append(sm_op(sym, r))
+    steps.append({"do": "run", "us": 600000})
+    for sid in pool:
+        for side in (0, 1):
+            uni = (sid // 2) % 2 == 1
+            init_side = 1 if sid % 2 == 0 else 0
+            if not uni or side != init_side:
+                steps.append(sm_op(("c" if side == 1 else "s") + "d" + str(sid), r))
+            if not uni or side == init_side:
+                steps.append(sm_op(("c" if side == 1 else "s") + "q" + str(sid), r))
+    steps.append({"do": "run", "us": 300000})
+    return {"cfg": cfg, "steps": steps, "tag": {"family": "streamsm-random", "idx": idx}}
